@@ -80,6 +80,7 @@ def plan(tier, seed):
         shards.append(("mask", n))
     shards.append(("shapes",))
     shards += [("grainhist", c) for c in range(4)]
+    shards += [("combine", ci) for ci in range(0, len(CELLS), 2 if tier == "quick" else 1)]
     k = seed % len(shards)
     return shards[k:] + shards[:k]
 
@@ -437,7 +438,63 @@ def _run_grainhist(desc):
     return sh
 
 
+def _run_combine(desc):
+    """TensorMap.from_combine_phases: afterwards the INPUT maps are what they were (their UBI, their NaN mask, and the derived maps they had
+    cached still describe that UBI: U.B = UB = inverse of UBI), and the combined map's UB / mt / unitcell / B / U are those of its UBI"""
+    _, ci = desc
+    from ImageD11 import unitcell as ucm
+    from ImageD11.sinograms import tensor_map as tm
+    from vt.props import c10
+    import io, contextlib
+    sh = Shard()
+    cells = [CELLS[ci], CELLS[(ci + 1) % len(CELLS)], CELLS[(ci + 3) % len(CELLS)]]
+    R = rotations(seed_of())
+
+    def ubis_for(k, v):
+        return make_ubi(cells[k], R[(k + 2 * v) % len(R)], STRAINS[(k + v) % len(STRAINS)])
+    dummy6, dummy33 = np.arange(6), np.eye(3)
+    for owners in c10.OWNERS:
+        for cached in ((), ("UB", "U", "B"), ("mt", "unitcell")):
+            with contextlib.redirect_stdout(io.StringIO()):
+                parts = c10.build_phase_maps(tm, ucm, cells, ubis_for, owners)
+                for T_ in parts[:2]:
+                    for nm in cached:
+                        getattr(T_, nm)
+                before = [{nm: np.array(T_.maps[nm]).copy() for nm in T_.maps} for T_ in parts]
+                comb = tm.TensorMap.from_combine_phases(parts)
+            case = {"kind": "combine", "cell": CELLS[ci], "owners": list(owners), "read_before_combining": list(cached), "seed": seed_of()}
+            ok = True
+            for q, (T_, b_) in enumerate(zip(parts, before)):
+                for nm, arr in b_.items():
+                    now = np.asarray(T_.maps[nm])
+                    if now.shape != arr.shape or not np.array_equal(np.isnan(now.astype(float)), np.isnan(arr.astype(float))) or \
+                            not np.array_equal(now[~np.isnan(now.astype(float))], arr[~np.isnan(arr.astype(float))]):
+                        sh.violation("TensorMap.from_combine_phases:changes-an-input-map", dict(case, input=q, map=nm), {})
+                        ok = False
+                        break
+                if not ok:
+                    break
+            if ok:
+                u = np.asarray(comb.UBI)
+                want = {"UB": tm.fast_invert(u), "mt": tm.ubi_to_mt(u)}
+                want["unitcell"] = tm.mt_to_unitcell(want["mt"], dummy6)
+                want["B"] = tm.unitcell_to_b(want["unitcell"], dummy33)
+                want["U"] = tm.ubi_and_b_to_u(u, want["B"])
+                for nm, w in want.items():
+                    got = np.asarray(getattr(comb, nm))
+                    if got.shape != w.shape or not np.array_equal(np.isnan(got), np.isnan(w)) or not np.allclose(got[~np.isnan(got)], w[~np.isnan(w)], rtol=0, atol=1e-12):
+                        sh.violation("TensorMap.from_combine_phases:%s-of-the-combined-map-is-not-that-of-its-UBI" % nm, case, {})
+                        break
+            sh.evaluations += 1
+            sh.nontrivial += 1
+    sh.outcomes.add(("combine", ci))
+    sh.sample(case, limit=1)
+    return sh
+
+
 def run_shard(desc):
+    if desc[0] == "combine":
+        return _run_combine(desc)
     if desc[0] == "grainhist":
         return _run_grainhist(desc)
     return {"ubi": _run_ubi, "mask": _run_mask, "shapes": _run_shapes}[desc[0]](desc)
@@ -446,6 +503,10 @@ def run_shard(desc):
 def replay(case):
     os.environ["VERIF_SEED"] = str(case.get("seed", 0))
     sh = Shard()
+    if case["kind"] == "combine":
+        r = _run_combine(("combine", CELLS.index(case["cell"])))
+        v = [x for x in r.violations if x["case"]["owners"] == case["owners"] and x["case"]["read_before_combining"] == case["read_before_combining"]]
+        return (not v), {"violations": v[:3]}
     if case["kind"] == "ubi":
         ci = CELLS.index(case["cell"])
         U = rotations(case.get("seed", 0), case.get("tier", "quick"))[case["rotation"]]
